@@ -321,6 +321,10 @@ func (s *Solver) Check(extras []*Term, want []*Term) (Result, []uint64) {
 			s.Stats.MaxQuery = d
 		}
 	}
+	if ud := os.Getenv("SYMGO_UNKDIR"); ud != "" && res == Unknown {
+		s.dumpN++
+		os.WriteFile(fmt.Sprintf("%s/unk%d_%d.smt2", ud, os.Getpid(), s.dumpN), []byte(s.script(extras, want)), 0o644)
+	}
 	switch res {
 	case Sat:
 		s.Stats.Sat++
